@@ -71,13 +71,13 @@ def doRun (st : DSt) (x0 : String) : DSt × String :=
     let cmark : String := match st.cobs with
       | none => ""
       | some _ => (match (resultC st.cfg st.obs st.cobs st.stages (natD x)).1 with | .ok _ => " cshown" | .raise => " cshown craise")
-    let render (ro : Result Nat × List Nat) : String :=
+    let render (ro : Result Nat × List Nat) (nts : List (Note Nat)) : String :=
       let r := ro.1
       let fin := match r.final with | some v => s!"some:{v}" | none => "none"
       joinSp [showBool r.success, fin, toString r.completed, toString r.total, showRat r.amplification,
         (match r.blockedAt with | some i => st.names.getD i "?" | none => "none"),
         showList (r.results.map fun x => s!"{x.idx}{showStatus x.status}:{showRat x.factor}"),
-        showList (r.log.map showEv), showList (ro.2.map toString)] ++ cmark
+        showList (nts.map fun n => match n with | .cb e => showEv e | .shown i => s!"o{i}"), showList (ro.2.map toString)] ++ cmark
     let outer := resultO st.cfg st.obs st.stages (natD x)
     -- every `nest` processor that ran started one run of the same cascade on signal 3; that run is independent of the
     -- run it was started from
@@ -91,7 +91,8 @@ def doRun (st : DSt) (x0 : String) : DSt × String :=
     ({ st with runs := st.runs + 1 + nestedN, okRuns := st.okRuns + oks, badRuns := st.badRuns + (1 + nestedN - oks), last := last',
                -- every nested run returns (and is recorded) before the run it was started from
                hist := pushSeq ((List.replicate nestedN innerR.1).foldl pushSeq st.hist) outer.1 },
-     String.intercalate " | " (render outer :: List.replicate nestedN (render innerR)))
+     String.intercalate " | " (render outer (notes st.cfg st.obs st.stages (natD x)) ::
+       List.replicate nestedN (render innerR (notes st.cfg st.obs st.stages 3))))
 
 def step (st : DSt) (toks : List String) : DSt × String :=
   match toks with
